@@ -80,7 +80,7 @@ fn vk_c20_piece_value() {
 //@ domain: complete
 //@ functions: engine/see.rs::see
 //@ timeout: 2400
-//@ mem_gb: 10
+//@ mem_gb: 8
 //@ note: fully symbolic board, every shape-valid non-en-passant capture (capturing promotions included), threshold 0: when, after the capture, no enemy piece attacks the target square (attack set of C01.attackers.all_exact on the occupancy after the move, x-rays through the vacated square included), the verdict is 'captured value (plus promotion gain) is non-negative', i.e. favourable; the exchange loop ends in its first round
 //@ assumes: table lookups == geometry (C07); meaning of the attack set: C01.attackers.all_exact
 #[kani::proof]
@@ -105,7 +105,7 @@ fn vk_c20_undefended() {
 //@ domain: complete
 //@ functions: engine/see.rs::see
 //@ timeout: 2400
-//@ mem_gb: 10
+//@ mem_gb: 7
 //@ note: fully symbolic board, threshold 0: a capture of a piece worth at least the capturing piece (every capturing promotion qualifies: the pawn is exchanged for at least a pawn's worth before the promoted piece can be retaken) is ALWAYS judged favourable, whatever defends the square; the exchange loop needs at most two rounds to see it
 //@ assumes: table lookups == geometry (C07)
 #[kani::proof]
@@ -122,7 +122,7 @@ fn vk_c20_winning_capture() {
 //@ domain: complete
 //@ functions: engine/see.rs::see
 //@ timeout: 2400
-//@ mem_gb: 10
+//@ mem_gb: 8
 //@ note: fully symbolic board, every shape-valid non-en-passant capture, threshold 0: when the captured piece IS defended (at least one enemy piece -- the king included -- attacks the target square on the occupancy after the capture) and the capturing side has NO backup at all (no other own piece bears on the target square even on an empty board, so no x-ray can appear), the exchange is exactly 'capture, recapture': the verdict is 'captured value (plus promotion gain) minus the value of the piece now standing on the square is non-negative'. In particular a lone defending king DOES recapture.
 //@ assumes: table lookups == geometry (C07); meaning of the attack set: C01.attackers.all_exact
 #[kani::proof]
@@ -157,7 +157,7 @@ fn vk_c20_defended_no_backup() {
 //@ obligation: C20.canary.see
 //@ canary: true
 //@ timeout: 2400
-//@ mem_gb: 10
+//@ mem_gb: 8
 #[kani::proof]
 #[kani::unwind(10)]
 //@@stubs-tables
